@@ -409,6 +409,10 @@ def run(ctx):
         ctx.violation("correspondence model<->implementation broken (the concrete model disagrees with the implementation; %d lines): %s" % (len(model_mm), line[:400]),
                       {"obligation": "G3 correspondence of coq/model/{Conn,Port}.v with iceoryx2 publish-subscribe ports",
                        "history": f.get("history", []), "harness_cmd": cmd}, no_input=not mine)
+    if pid == "C02":
+        # the property's last clause: the same statement for request and response payloads
+        import c02_reqres_part
+        c02_reqres_part.run_reqres(ctx)
     if not proof_ok and not ctx.violations:
         ctx.violation("proof obligation no longer checks: %s" % ctx.broken,
                       {"broken": ctx.broken, "searched": "all histories above; reference mismatches of this property: %s" % counts}, no_input=True)
